@@ -983,6 +983,9 @@ func Run(c *hx.Ctx) error {
 			return genMalformed(rr).text
 		}, func() []byte { return valid[rr.Intn(len(valid))].text })
 	}
+	if c.Arg("mode", "") == "e2e-child" {
+		return runE2EChild(c)
+	}
 	if c.Arg("mode", "") == "e2e" {
 		return runE2E(c, hx.NewRng(c.Seed^0xe2e), c.Budget(300, 6000))
 	}
